@@ -52,4 +52,21 @@ ModDownQPtoPOK(x, Q, ps, out) ==
 
 \* same centred value in the target basis
 ExtendSmallOK(v, bs, out) == \A j \in 1..Len(bs) : out[j] = v % bs[j]
+
+\* ---- RNS gadget decomposition (ring.Decomposer.DecomposeAndSplit): digit i of x is the centred representative of x modulo
+\* the i-th group of alpha consecutive primes of Q, written on every modulus of Q and of P. Hence the digits recombine to x
+\* against the gadget vector (Chinese remainders) and each is bounded by (half) its digit modulus.
+Group(qs, alpha, i) == {j \in 1..Len(qs) : j > i * alpha /\ j <= (i + 1) * alpha}
+GroupMod(qs, alpha, i) == Prod([k \in 1..Cardinality(Group(qs, alpha, i)) |-> qs[i * alpha + k]])
+\* the (at most two) candidates for the centred representative given one residue: r and r - G; the digit is the one that
+\* matches all the residues written, and its absolute value is at most (G + 1) / 2
+DigitOK(qs, ps, alpha, i, xres, dqres, dpres) ==
+    LET G == GroupMod(qs, alpha, i)
+        grp == Group(qs, alpha, i)
+        consistent(v) == /\ \A j \in 1..Len(qs) : dqres[j] = v % qs[j]
+                         /\ \A j \in 1..Len(ps) : dpres[j] = v % ps[j]
+                         /\ \A j \in grp : v % qs[j] = xres[j]
+                         /\ 2 * Abs(v) <= G + 1
+        q1 == qs[i * alpha + 1]                 \* candidates: the integers of the range congruent to x modulo the first prime of the group
+    IN \E k \in (0 - (G \div q1) - 1)..(G \div q1 + 1) : consistent(xres[i * alpha + 1] + k * q1)
 =============================================================================
